@@ -985,6 +985,128 @@ FTP_C01_PENDING = ["%s.%s" % (_b.name, _o) for _b in B.NETWORK for _o in FTP_C01
 # (registered in known_findings.json on 2026-10-01, C01 and - the space names - C10: nothing is pending)
 
 
+# ---- name relations and name classes (fixed histories, every backend of C01 and C10 - FTP included).
+# Relations between the name of a directory and the names below / beside it: a child named like its parent (as a file
+# and as a directory, as the sole entry and with siblings), a child named like a sibling of its parent, a file named
+# like an ancestor.  Name classes, each as the sole entry of a directory, next to a sibling, as a file and as a
+# directory: decomposed (NFD) beside composed (NFC) forms, compatibility characters that normalisation folds (U+FB01,
+# U+2126, full-width digits), trailing dots / spaces, pairs that differ in case only, the characters of the MLSD fact
+# syntax (';' '=').  Listings must give exactly the created names and every query on join(d, listed name) must agree
+# (reference: FS/ semantics stepped from the backend's own pre-state, as for the random histories).
+
+def _name_history(d, names):
+    """Files `names` in directory d (the first as the sole entry first), then the same names as directories in d+'2'."""
+    h = [("makedir", d, False)]
+    for k, n in enumerate(names):
+        q = d + "/" + n
+        h += [("writebytes", q, b"x" + n.encode("utf-8")), ("listdir", d), ("scandir", d), ("getinfo", q), ("isfile", q),
+              ("exists", q), ("readbytes", q), ("getsize", q)]
+        if k == 0:
+            h += [("isempty", d), ("removedir", d)]
+    h += [("writebytes", d + "/z", b"z"), ("listdir", d), ("makedir", d + "2", False)]
+    for n in names:
+        q = d + "2/" + n
+        h += [("makedir", q, False), ("listdir", d + "2"), ("isdir", q), ("isempty", q), ("getinfo", q),
+              ("writebytes", q + "/" + n, b"in"), ("listdir", q), ("scandir", q)]
+    h += [("removetree", d), ("listdir", "/"), ("removetree", d + "2"), ("listdir", "/")]
+    return h
+
+
+NAME_RELATION_HISTORIES = [
+    # the sole entry of a directory is a FILE named like the directory
+    [("makedir", "logs", False), ("writebytes", "logs/logs", b"x"), ("listdir", "logs"), ("scandir", "logs"),
+     ("isempty", "logs"), ("getinfo", "logs/logs"), ("isdir", "logs"), ("removedir", "logs"), ("copydir", "logs", "c", True, False),
+     ("listdir", "c"), ("removetree", "logs"), ("listdir", "/")],
+    # ... a DIRECTORY named like it, and further down; then with siblings
+    [("makedirs", "d/d", False), ("listdir", "d"), ("scandir", "d"), ("isempty", "d"), ("isempty", "d/d"),
+     ("writebytes", "d/d/d", b"deep"), ("listdir", "d/d"), ("scandir", "d/d"), ("readbytes", "d/d/d"), ("removedir", "d/d"),
+     ("writebytes", "d/e", b"sib"), ("listdir", "d"), ("removetree", "d/d"), ("listdir", "d"), ("removetree", "d"),
+     ("listdir", "/")],
+    # a child named like a sibling of its parent; a file named like an ancestor; same-named file with siblings
+    [("makedir", "a", False), ("makedir", "b", False), ("writebytes", "a/b", b"x"), ("listdir", "a"), ("listdir", "b"),
+     ("isdir", "a/b"), ("isempty", "b"), ("makedirs", "x/y", False), ("writebytes", "x/y/x", b"anc"), ("listdir", "x/y"),
+     ("scandir", "x/y"), ("isempty", "x/y"), ("writebytes", "a/a", b"same"), ("listdir", "a"), ("scandir", "a"),
+     ("removetree", "x"), ("removetree", "a"), ("listdir", "/")],
+]
+NAME_CLASSES = [
+    ("decomposed (NFD) and composed (NFC) forms", [u"e\u0301", u"\xe9", u"o\u0308"]),
+    ("compatibility characters that normalisation folds (U+FB01, U+2126, full-width digit)",
+     [u"\ufb01le", u"\u2126", u"\uff11"]),
+    ("trailing dots", [u"a.", u"b.."]),
+    ("trailing spaces", [u"a ", u"b  "]),
+    ("names that differ in case only", [u"A", u"a", u"Ab"]),
+    ("the characters of the MLSD fact syntax (';' '=')", [u"a;b", u"k=v"]),
+]
+NAME_CLASS_HISTORIES = [_name_history("n%d" % i, names) for i, (_label, names) in enumerate(NAME_CLASSES)]
+NAME_FAMILY = [("a name related to the names around it (child like parent / like the parent's sibling / like an ancestor)", h)
+               for h in NAME_RELATION_HISTORIES] + \
+              [(label, h) for (label, _n), h in zip(NAME_CLASSES, NAME_CLASS_HISTORIES)]
+NAME_FAMILY_SIG = "%s: names - %s: listings / queries disagree with the reference"
+# the states of the family for the C10 battery (construction only; the battery does the querying)
+C10_NAME_STATES = [
+    ("relation", [("makedir", "logs", False), ("writebytes", "logs/logs", b"x")]),
+    ("relation", [("makedirs", "d/d", False), ("writebytes", "d/d/d", b"deep"), ("writebytes", "d/e", b"sib")]),
+    ("relation", [("makedir", "a", False), ("makedir", "b", False), ("writebytes", "a/b", b"x"), ("makedirs", "x/y", False),
+                  ("writebytes", "x/y/x", b"anc"), ("writebytes", "a/a", b"same")]),
+] + [(label, [("makedir", "n", False), ("writebytes", "n/" + names[0], b"x")] +
+      [("writebytes", "n/" + n, b"y") for n in names[1:]] + [("makedirs", "m/" + names[0], False)] +
+      [("makedir", "m/" + n, False) for n in names[1:]]) for label, names in NAME_CLASSES]
+C10_NAME_STATES = [(NAME_FAMILY[0][0] if label == "relation" else label, h) for label, h in C10_NAME_STATES]
+
+
+# TODO PENDING_FINDINGS (ftp5, 2026-10-01): what the UNCHANGED FTPFS gets wrong in the name family (class level; C01 and
+# C10 use the same strings); awaiting triage
+NAME_FAMILY_PENDING = [
+    NAME_FAMILY_SIG % ("FTPFS", NAME_CLASSES[3][0]),                                # MLSD: 'a ' is listed as 'a' (strip())
+    NAME_FAMILY_SIG % ("FTPFS", NAME_CLASSES[5][0]),                                # MLSD: 'a;b' is listed as 'b' (C20 finding)
+    NAME_FAMILY_SIG % ("FTPFS(server without MLST/MLSD)", NAME_CLASSES[0][0]),      # LIST: names are NFC-normalised
+    NAME_FAMILY_SIG % ("FTPFS(server without MLST/MLSD)", NAME_CLASSES[1][0]),      # LIST: U+2126 -> U+03A9 (NFC)
+]
+# (ReadTarFS declares case_insensitive=True in its meta, so filterdir(files=['A']) also selects 'a': documented behaviour of
+#  FS.match for a filesystem that says so - the filterdir oracle follows getmeta(); the odd declaration is noted in DESIGN 9.5)
+# the four FTP signatures are registered in known_findings.json (C01 and C10): nothing is pending
+
+
+def c10_name_states(bc, seed, thorough):
+    """Thorough tier: every state; quick tier: the relation states + two name classes drawn per (seed, backend)."""
+    if thorough:
+        return [h for _l, h in C10_NAME_STATES]
+    rnd = random.Random("%s-%s-names" % (seed, bc.name))
+    return [h for _l, h in C10_NAME_STATES[:3] + rnd.sample(C10_NAME_STATES[3:], 2)]
+
+
+def name_state_label(h):
+    """The class of the C10 name state that the history h is (a prefix of), or None."""
+    for label, st in C10_NAME_STATES:
+        if h and list(h) == list(st[:len(h)]):
+            return label
+    return None
+
+
+def run_c01_names(report, cov):
+    """The name family on every backend of C01 (FTP included, when the server starts) ->
+    [(step, ref, okr, okt, signature, history)] in the format of run_c01_ftp."""
+    out = []
+    hs = [h for _label, h in NAME_FAMILY]
+    backs = list(B.ALL) + B.GROWING + (B.NETWORK if cov.get("available") else [])
+    n = 0
+    for bc in backs:
+        steps = run_histories(bc, hs)
+        refs = ref_steps(steps)
+        n += len(steps)
+        for st, r in zip(steps, refs):
+            okr, okt = agrees2(st, r)
+            if not (okr and okt):
+                out.append((st, r, okr, okt, NAME_FAMILY_SIG % (bc.name, NAME_FAMILY[st.hist_id][0]),
+                            [op_json(o) for o in hs[st.hist_id][:st.index + 1]]))
+    cov["name_family"] = dict(histories=len(hs), backends=len(backs), steps=n, classes=[l for l, _n in NAME_CLASSES],
+                              rule="fixed histories on every backend: a child named like its parent (file / directory, sole "
+                                   "entry / with siblings), like a sibling of its parent, a file named like an ancestor; "
+                                   "per name class the names as the sole entry, next to siblings, as files and as "
+                                   "directories; every call compared with the reference")
+    return out
+
+
 def _below_file(step):
     """Does a path argument of the call have a proper ancestor that is a file in the pre-state?"""
     from fs.path import abspath, normpath, recursepath
@@ -1153,6 +1275,7 @@ def run_c01(report):
                                   theorem="Props/C01.v"))
     # 2a'. the same comparison on FTPFS over a loop-back server (both kinds of server), with its own budget
     ftp_cov, ftp_div = run_c01_ftp(report, thorough)
+    ftp_div = ftp_div + run_c01_names(report, ftp_cov)
     ftp_pending = collections.Counter()
     for s, r, okr, okt, sig, hist in ftp_div:
         total += 1
@@ -1173,7 +1296,7 @@ def run_c01(report):
                                   tree_after=s.post, reference=r, result_agrees=okr, tree_agrees=okt,
                                   theorem="Props/C01.v"))
     ftp_cov["pending_findings_seen"] = dict(ftp_pending)
-    total += sum(c["steps"] + c["probe_steps"] for c in ftp_cov["backends"].values())
+    total += sum(c["steps"] + c["probe_steps"] for c in ftp_cov["backends"].values()) + ftp_cov["name_family"]["steps"]
     # 2b. the stream-taking calls (upload / writefile / download / piecewise reads) on every backend
     st_cov, st_div, st_bulk, st_vseed, st_hs = run_stream_block(report, backs, thorough)
     for s, r, okr, okt, v in st_div:
@@ -2917,6 +3040,13 @@ def query_check(fs, path, is_dir_expected=None):
                              dict(exclude_dirs=["b", "a*"]), dict(files=["*"], exclude_dirs=["*"]),
                              dict(files=[names_all[0]] if names_all else ["zz"])]
                 import fs.wildcard as _W
+                # FS.match / filterdir are documented to match without regard to case on a filesystem that DECLARES
+                # itself case insensitive (getmeta()['case_insensitive']); ReadTarFS does (DESIGN 9.6)
+                try:
+                    _ci = bool(fs.getmeta().get("case_insensitive", False))
+                except Exception:  # noqa
+                    _ci = False
+                _many = _W.imatch_any if _ci else _W.match_any
                 for kw in filt_sets:
                     fl = q(lambda: list(fs.filterdir(path, namespaces=["details"], **kw)))
                     if fl[0] != "ok":
@@ -2925,11 +3055,11 @@ def query_check(fs, path, is_dir_expected=None):
                     want = []
                     for i in sd[1]:
                         if i.is_dir:
-                            keep = (not kw.get("exclude_dirs") or not _W.match_any(kw["exclude_dirs"], i.name)) and \
-                                (not kw.get("dirs") or _W.match_any(kw["dirs"], i.name))
+                            keep = (not kw.get("exclude_dirs") or not _many(kw["exclude_dirs"], i.name)) and \
+                                (not kw.get("dirs") or _many(kw["dirs"], i.name))
                         else:
-                            keep = (not kw.get("exclude_files") or not _W.match_any(kw["exclude_files"], i.name)) and \
-                                (not kw.get("files") or _W.match_any(kw["files"], i.name))
+                            keep = (not kw.get("exclude_files") or not _many(kw["exclude_files"], i.name)) and \
+                                (not kw.get("files") or _many(kw["files"], i.name))
                         if keep:
                             want.append(i.name)
                     got = [i.name for i in fl[1]]
@@ -3067,10 +3197,16 @@ def c10_ftp_worker(args):
     Pre = collections.namedtuple("Pre", "pre op")
     bad, nontrivial = [], []
     total = n_spell = n_ns = 0
-    todo = [(hi, h, 0) for hi, h in enumerate(list(hs) + [FTP_C10_SPACE_HISTORY])]
+    states = list(C10_NAME_STATES)
+    if bc is B.FTPNoMLSD and not thorough:
+        # every query of the LIST server lists a directory over a data connection of its own: the three relation
+        # states + two name classes drawn from the histories' seed
+        states = states[:3] + random.Random(repr(hs[:1])).sample(states[3:], 2)
+    tags = [False] * len(hs) + [True] + [label for label, _h in states]      # True: the space-name history
+    todo = [(hi, h, 0) for hi, h in enumerate(list(hs) + [FTP_C10_SPACE_HISTORY] + [h for _l, h in states])]
     while todo:
         hi, h, attempt = todo.pop(0)
-        space = hi == len(hs)
+        space = tags[hi]
         b = bc()
         mark = len(bad), total, len(nontrivial), n_spell, n_ns
         try:
@@ -3083,6 +3219,8 @@ def c10_ftp_worker(args):
                 done.append(o)
                 if k % 2 and not thorough and not space:
                     continue
+                if space is not True and space and k < len(h) - 1 and not thorough:
+                    continue            # name states: the battery on the finished state
                 try:
                     walked = [p for p, _i in fs.walk.info()]
                 except Exception as e:  # noqa
@@ -3168,8 +3306,9 @@ def run_c10(report):
     n_spell = n_ns = 0
     ftp_cov, ftp_pool, ftp_pending = c10_ftp_start(report, thorough)      # FTPFS batteries run beside the loop below
     for bc in backs:
-        for hi, h in enumerate(hs if bc in (B.Mem, B.OS) or thorough else hs[:6] if bc in C10_HETERO
-                               else hs[:8] if bc in B.LINKED else hs[:25]):
+        for hi, h in enumerate(c10_name_states(bc, report.seed, thorough) +      # the name family first, on every backend
+                               (hs if bc in (B.Mem, B.OS) or thorough else hs[:6] if bc in C10_HETERO
+                                else hs[:8] if bc in B.LINKED else hs[:25])):
             b = bc()
             try:
                 fs = b.make()
@@ -3227,8 +3366,13 @@ def run_c10(report):
         n_ns += fns
         nontrivial.update(fnontrivial)
         for bname, h, p, r, space in fbad:
-            bad2.append((bname, h, p, r, FTP_SPACE_SIG % bname if space else None))
+            bad2.append((bname, h, p, r, FTP_SPACE_SIG % bname if space is True else
+                         NAME_FAMILY_SIG % (bname, space) if space else None))
     for name, h, p, r in bad:
+        if name_state_label(h) and not (name in LINKED_NAMES and (p == B.DANGLING_DIR or p.startswith(B.DANGLING_DIR + "/"))):
+            # the fixed name family: one class-level signature per (backend, name class)
+            bad2.append((name, h, p, r, NAME_FAMILY_SIG % (name, name_state_label(h))))
+            continue
         # directory-cache wrappers and page windows (behaviour of the unchanged library, see PENDING_FINDINGS): the
         # page inconsistencies get their own class signature, whatever else is inconsistent is judged normally
         if "cache_directory" in name and "after a paged scandir" in name:
